@@ -441,3 +441,26 @@ def _replay_real(mv, ob):
 Unit("C01", "q_to_R round trip on random geometries [real code]", concrete=_real_roundtrip,
      bounded_desc="installed Rvectors (set_Rvec, set_fft_q_to_R, q_to_R, conj_XX_R) with real numpy.fft and pyfftw: 6 (quick) / 40 (thorough) random lattices incl. cubic, mesh sizes 1..5 per direction in shuffled order and shifted by lattice vectors, "
                   "1-3 Wannier functions with centres inside / outside the cell / coinciding, tolerances 1e-8..1e-2, scalar / vector / tensor valued Hermitian data")
+
+
+@unit("C01", "iterate_nd / iterate3dpm: the search box of the Wigner-Seitz construction is [-n, n]^3, closed under negation", expect_min=2, scope="shape:sizes up to (3,2,1) in 1-3 dimensions; offsets")
+def _iterate(U):
+    import itertools as it
+    f = U.fn(F_UT, "iterate_nd", globs=dict(np=rnp), model=False, rewrite_comps=False)
+    f3 = U.fn(F_UT, "iterate3dpm", globs=dict(np=rnp, iterate_nd=f), model=False, rewrite_comps=False)
+
+    def body():
+        ok_pm, ok_plain = True, True
+        for size in ((1,), (3,), (2, 1), (1, 1, 1), (3, 2, 1), (2, 2, 2)):
+            got = [tuple(int(x) for x in v) for v in f(size, pm=True)]
+            want = list(it.product(*[range(-n, n + 1) for n in size]))
+            ok_pm = ok_pm and got == want and {tuple(-x for x in v) for v in got} == set(got)
+            got0 = [tuple(int(x) for x in v) for v in f(size)]
+            ok_plain = ok_plain and got0 == list(it.product(*[range(n) for n in size]))
+            start = tuple(range(-1, len(size) - 1))
+            gots = [tuple(int(x) for x in v) for v in f(size, start=start)]
+            ok_plain = ok_plain and gots == list(it.product(*[range(s_, s_ + n) for s_, n in zip(start, size)]))
+        ok_pm = ok_pm and [tuple(int(x) for x in v) for v in f3((2, 1, 3))] == list(it.product(range(-2, 3), range(-1, 2), range(-3, 4)))
+        U.ensure("pm=True: every integer vector with |x_i| <= n_i exactly once, in C order -- a set closed under x -> -x (X(-R) = X(R)^dagger needs R and -R searched alike)", ok_pm)
+        U.ensure("pm=False: the box [0, n) or [start, start + n), in C order", ok_plain)
+    U.run(body, check_feasible=False)
